@@ -57,7 +57,8 @@ def step (c impl : String) : String :=
           let t := kv toks "t"
           let g := kv toks "g"
           let what := s!"{rpc} (cfg={cfg}, {family} {p1}, mode={mode} {ms}ms)"
-          if res.startsWith "PANIC" then specViol s!"panic escaped {what}: {res}"
+          if res = "skipped" then "SKIP known hang shape (pipeline, repeated direct-assignment leaf) already observed in this run"
+          else if res.startsWith "PANIC" then specViol s!"panic escaped {what}: {res}"
           else if t = "hang" then
             if cfg = "pipe" && (rpc = "listobjects" || rpc = "streamed") && kv toks "dup" = "1" then
               specViol s!"hang: pipeline {what} never returned — model with a repeated direct-assignment leaf in a self-referencing relation; stacks {kv toks "stk"}"
